@@ -7,6 +7,7 @@ costs becomes [xltb], `<` on naturals [Nat.ltb], `==` on directions [dir_eqb], e
 """
 from __future__ import annotations
 import ast
+import re
 from dataclasses import dataclass, field
 from pathlib import Path
 
@@ -135,7 +136,7 @@ class Translator:
                 tmpl, ty = idi[key]
                 names = {nm: (env[nm][0] if nm in env else None) for nm in _names_in(tmpl)}
                 if any(v is None for v in names.values()): raise Unsupported(f"idiom {key[:40]}: unbound name")
-                return (tmpl.format(**names), ty)
+                return (_fill(tmpl, names), ty)
         if isinstance(n, ast.Name):
             if n.id in env: return env[n.id]
             if n.id == "self" and "self_value" in sp.attrs: return sp.attrs["self_value"]
@@ -292,6 +293,11 @@ class Translator:
                 return (f"(obind {k} (py_getitem {v}))", RES(tv[1]))
             if isinstance(sl, ast.Constant) and isinstance(sl.value, int) and sl.value >= 0:
                 return (f"(nth_error {v} {sl.value})", OPT(tv[1]))
+            if isinstance(sl, ast.Name) and sl.id in env and env[sl.id][1] == NAT:            # l[i], i a natural number: IndexError beyond
+                return (f"(nth_error {v} {env[sl.id][0]})", RES(tv[1]))
+        if isinstance(tv, tuple) and tv[0] == "result" and isinstance(tv[1], tuple) and tv[1][0] == "list" \
+                and isinstance(sl, ast.Name) and sl.id in env and env[sl.id][1] == NAT:           # l[i][j]
+            return (f"(obind {v} (fun r_ => nth_error r_ {env[sl.id][0]}))", RES(tv[1][1]))
         raise Unsupported(f"subscript {ast.unparse(n)}")
 
     def tr_listcomp(self, n, env):
@@ -365,6 +371,11 @@ class Translator:
             if tv == F: return (f"({sp.floats['abs']} {v})", F)
             if tv == X: return (f"(xabs {v})", X)
             raise Unsupported("abs")
+        if f == "list" and len(n.args) == 1 and not n.keywords:                  # list(l): a copy of a list
+            v, tv = self.tr(n.args[0], env)
+            if isinstance(tv, tuple) and tv[0] == "fresh": tv = tv[1:]
+            if not (isinstance(tv, tuple) and tv[0] == "list"): raise Unsupported("list() of non-list")
+            return (v, tv)
         if f == "float" and len(n.args) == 1:
             v, tv = self.tr(n.args[0], env); self.need(tv, X); return (v, X)
         if f == "np.clip" and len(n.args) == 3 and not n.keywords:
@@ -466,6 +477,10 @@ class Translator:
         if self.spec.fallible:
             if isinstance(ty, tuple) and ty[0] == "result" and self.compatible(ty, RES(self.spec.ret)):
                 return txt, ty          # a failing computation of the right type (propagated failure)
+            r = self.spec.ret
+            if isinstance(r, tuple) and r[0] == "option" and not (isinstance(ty, tuple) and ty[0] == "option") and self.compatible(ty, r[1]):
+                return f"(Some (Some {txt}))", RES(r)        # a function returning `None | T`: a T result is Some
+            if ty == OPT(None) and isinstance(r, tuple) and r[0] == "option": ty = r
             return f"(Some {txt})", RES(ty)
         return txt, ty
 
@@ -474,6 +489,7 @@ class Translator:
         if not stmts:
             if sp.state is not None:
                 return self.ret_wrap(*env[sp.state])
+            if sp.ret == "unit": return self.ret_wrap("tt", "unit")          # a procedure: falling off the end returns None
             raise Unsupported("fell off the end")
         st, rest = stmts[0], stmts[1:]
         if isinstance(st, ast.Expr) and isinstance(st.value, ast.Constant):
@@ -520,6 +536,7 @@ class Translator:
             raise Unsupported(f"expression statement {ast.unparse(st)[:60]}")
         if isinstance(st, ast.Return):
             if st.value is None:
+                if sp.state is None and sp.ret == "unit": return self.ret_wrap("tt", "unit")
                 if sp.state is None: raise Unsupported("bare return")
                 return self.ret_wrap(*env[sp.state])
             t, ty = self.tr(st.value, env)
@@ -534,6 +551,10 @@ class Translator:
         if isinstance(st, ast.Raise):
             if not sp.fallible: raise Unsupported("raise in total function")
             return ("None", RES(sp.ret))
+        if isinstance(st, ast.Try) and sp.fallible and not st.orelse and not st.finalbody and len(st.handlers) == 1 \
+                and len(st.handlers[0].body) == 1 and isinstance(st.handlers[0].body[0], ast.Raise) \
+                and ast.unparse(st.handlers[0].type) == "ValueError" and ast.unparse(st.handlers[0].body[0].exc).startswith("ValueError("):
+            return self.tr_body(list(st.body) + rest, env)       # a ValueError of the body is re-raised as ValueError: same failure
         if isinstance(st, ast.With) and len(st.items) == 1 and ast.unparse(st.items[0].context_expr) == "get_pool_executor(self._mode, self._workers)":
             return self.tr_body(list(st.body) + rest, env)
         if isinstance(st, ast.Assign) and len(st.targets) == 1:
@@ -608,6 +629,18 @@ class Translator:
             b, tb = self.tr_body(rest, env2)
             return (f"let {nv} := match {xcur} with Some v_ => v_ | None => {e} end in\n  {b}", tb)
         terminal = lambda body: body and isinstance(body[-1], (ast.Return, ast.Raise))
+        # `if x is None: <return / raise>` with x an option-typed name: the rest sees x at its inner type (narrowing)
+        if (terminal(st.body) and not st.orelse and isinstance(test, ast.Compare) and len(test.ops) == 1 and isinstance(test.ops[0], ast.Is)
+                and isinstance(test.comparators[0], ast.Constant) and test.comparators[0].value is None
+                and dotted(test.left) in env and isinstance(env[dotted(test.left)][1], tuple) and env[dotted(test.left)][1][0] == "option"
+                and env[dotted(test.left)][1][1] is not None):
+            x = dotted(test.left); xcur, xty = env[x]
+            a, ta = self.tr_body(list(st.body), env)
+            nv = self.gensym(x.replace(".", "_").strip("_"))
+            env2 = dict(env); env2[x] = (nv, xty[1])
+            b, tb = self.tr_body(rest, env2)
+            a, b, ty = self.unify(a, ta, b, tb)
+            return (f"match {xcur} with None => {a} | Some {nv} =>\n  {b} end", ty)
         if terminal(st.body) and not st.orelse:
             c, tc = self.tr(test, env); self.need(tc, BOOL)
             a, ta = self.tr_body(list(st.body), env)
@@ -616,6 +649,22 @@ class Translator:
             return (f"if {c} then {a} else\n  {b}", ty)
         if st.orelse:
             raise Unsupported("if/else with fall-through")
+        # `if o is not None: x = E` where E may fail (IndexError ...): the failure propagates, otherwise x is rebound (rest duplicated)
+        if is_not_none and sp.fallible and len(st.body) == 1 and isinstance(st.body[0], ast.Assign) and len(st.body[0].targets) == 1 \
+                and isinstance(st.body[0].targets[0], ast.Name) and st.body[0].targets[0].id in env:
+            x = st.body[0].targets[0].id
+            o = dotted(test.left); otxt, oty = env[o]
+            v = self.gensym(o.replace(".", "_").strip("_"))
+            env_in = dict(env); env_in[o] = (v, oty[1])
+            e, te = self.tr(st.body[0].value, env_in)
+            if isinstance(te, tuple) and te[0] == "result":
+                self.need(te[1], env[x][1])
+                nv = self.gensym(x)
+                env2 = dict(env_in); env2[x] = (nv, te[1])
+                b1, t1 = self.tr_body(rest, env2)
+                b0, t0 = self.tr_body(rest, env)
+                b1, b0, ty = self.unify(b1, t1, b0, t0)
+                return (f"match {otxt} with\n  | Some {v} => match {e} with None => None | Some {nv} =>\n  {b1} end\n  | None =>\n  {b0} end", ty)
         # body may only rebind already-bound names (simple or augmented-or assignments, prints)
         assigned = []
         for s2 in st.body:
@@ -653,9 +702,17 @@ class Translator:
         return (f"let {nv} := {newval} in\n  {b}", tb)
 
 
+_PLACEHOLDER = re.compile(r"\{([A-Za-z_][A-Za-z0-9_.]*)\}")
+
+
 def _names_in(tmpl: str):
-    import string
-    return [f for _, f, _, _ in string.Formatter().parse(tmpl) if f]
+    """placeholders {name} / {self.field} of an idiom template ({{ and }} are literal braces)"""
+    return _PLACEHOLDER.findall(tmpl.replace("{{", "").replace("}}", ""))
+
+
+def _fill(tmpl: str, names: dict) -> str:
+    out = _PLACEHOLDER.sub(lambda m: names[m.group(1)] if m.group(1) in names else m.group(0), tmpl.replace("{{", "\x00").replace("}}", "\x01"))
+    return out.replace("\x00", "{").replace("\x01", "}")
 
 
 CONSTS = {"TaskType.MIN": ("MIN", DIR), "TaskType.MAX": ("MAX", DIR)}
